@@ -50,11 +50,14 @@ TransferOwnership(st, a) ==
     ELSE Acc([st EXCEPT !.owner = a.new], "unit",
              <<[k |-> "ownership_transferred", prev |-> st.owner, new |-> a.new]>>)
 
+(* verification hook (harness only, never a contract entry point): the Upgradable interface's migration window is
+   opened without swapping code.  The window belongs to another interface: nothing in this module may depend on it *)
 Apply(st, a) ==
     CASE a.name = "AddOperator"       -> AddOperator(st, a)
       [] a.name = "RemoveOperator"    -> RemoveOperator(st, a)
       [] a.name = "Execute"           -> Execute(st, a)
       [] a.name = "TransferOwnership" -> TransferOwnership(st, a)
+      [] a.name = "HookOpenWindow" -> Acc(st, "unit", <<>>)
 
 Obs(st) == [operators |-> [x \in Accts |-> IsOp(st, x)], owner |-> st.owner, ops |-> st.ops]
 =============================================================================
